@@ -85,6 +85,9 @@ var interestingTexts = []string{
 	"md2", "md5", "sha-1", "sha-224", "sha-256", "sha-384", "sha-512", "shake128", "shake256", "SHA256", "Sha-512", "SHA_384", "sha256", "SHA-1",
 	// punctuation that matters to somebody's regular expression or format string
 	"[.text, .rodata, ]", "https://x/{v1,}", ",}", ", ]", "a,\n}", "100%", "%w", "%s%d%v", "1.4.0+rc%2", "%!s(MISSING)", "$1", "\\1", "a=b&c=d", "+1-2=3",
+	// URL-shaped texts that net/url refuses to parse, and other texts with a
+	// scheme separator
+	"coaps://[fe80::1%eth0]:5684/verify", "http://a b/", "http://x:notaport/", "https://v.example/%", "100% trusted", "://x", ":x", "http://[::1", "https://v.example/\t", "mailto:a@b", "\ufffd", "a\ufffdb",
 }
 
 func drawText(t *rapid.T, label string, allowEmpty bool) string {
@@ -282,9 +285,9 @@ func drawComp(t *rapid.T, valid bool, label string) *MComp {
 		case 1:
 			c.Signer = nil
 		case 2:
-			c.Value = bp(drawBytes(t, drawBadLen(t, label+".badv", isHashLen, []int{0, 31, 33, 47, 49, 63, 65}), label+".value"))
+			c.Value = bp(drawBytes(t, drawBadLen(t, label+".badv", isHashLen, []int{0, 31, 33, 47, 49, 63, 65, 16, 20, 28, 24, 56, 96, 128}), label+".value"))
 		case 3:
-			c.Signer = bp(drawBytes(t, drawBadLen(t, label+".bads", isHashLen, []int{0, 31, 33, 47, 49, 63, 65}), label+".signer"))
+			c.Signer = bp(drawBytes(t, drawBadLen(t, label+".bads", isHashLen, []int{0, 31, 33, 47, 49, 63, 65, 16, 20, 28, 24, 56, 96, 128}), label+".signer"))
 		case 4:
 			c.Value = nil
 			c.Signer = bp(drawBytes(t, 31, label+".signer"))
